@@ -16,4 +16,9 @@ PROP = {'technique': 'property-based testing (rapid): validity predicate on the 
  'tests': [{'name': 'TestVerifC05_Regress_FragCountWrap', 'unit': 'core:internal/frag', 'kind': 'plain'},
            {'name': 'TestVerifC05_Split', 'unit': 'core:internal/frag', 'quick': 30000, 'thorough': 150000, 'shards_thorough': 8},
            {'name': 'TestVerifC05_Reassembly', 'unit': 'core:internal/frag', 'quick': 20000, 'thorough': 150000, 'shards_thorough': 8},
-           {'name': 'TestVerifC05_RoundTrip', 'unit': 'core:internal/frag', 'quick': 3000, 'thorough': 20000, 'shards_thorough': 8}]}
+           {'name': 'TestVerifC05_RoundTrip', 'unit': 'core:internal/frag', 'quick': 3000, 'thorough': 20000, 'shards_thorough': 8},
+           # send paths: fragmentation only after DatagramTooLargeError{n}, against a fake datagram link with limit n
+           {'name': 'TestVerifC05_Regress_ServerSendPath', 'unit': 'core:server', 'kind': 'plain'},
+           {'name': 'TestVerifC05_ServerSendPath', 'unit': 'core:server', 'quick': 10000, 'thorough': 60000, 'shards_thorough': 8},
+           {'name': 'TestVerifC05_Regress_ClientSendPath', 'unit': 'core:client', 'kind': 'plain'},
+           {'name': 'TestVerifC05_ClientSendPath', 'unit': 'core:client', 'quick': 10000, 'thorough': 60000, 'shards_thorough': 8}]}
